@@ -242,6 +242,9 @@ class C14(Check):
             apps = [rnames[:k], rnames[k:]]
         else:
             apps = [rnames]
+        if rng.random() < 0.5:
+            # the search order is the order GIVEN, whatever the directories are called (theme before base, ...)
+            apps = [rng.sample(a, len(a)) for a in apps]
         ghost = {'root': rng.choice(rnames), 'rel': rng.choice(['ghost.txt', 'sub/ghost.txt'])}
         ghost_ok = not any(f['rel'] == ghost['rel'] or ghost['rel'].startswith(f['rel'] + '/')
                            for fs in roots.values() for f in fs)
@@ -256,7 +259,7 @@ class C14(Check):
         """-> (target, rel-as-decoded) relative path requested under the prefix."""
         rels = sorted(set(f['rel'] for fs in cfg['roots'].values() for f in fs))
         dirs = sorted(set(os.path.dirname(r) for r in rels if '/' in r))
-        kind = rng.choice(['valid'] * 5 + ['dots', 'escape', 'abs', 'enum', 'mutate', 'dir', 'ghost', 'missing'])
+        kind = rng.choice(['valid'] * 5 + ['dots', 'escape', 'abs', 'enum', 'mutate', 'dir', 'ghost', 'missing', 'compat'])
         if kind == 'valid':
             rel = rng.choice(rels)
         elif kind == 'dots':
@@ -271,6 +274,14 @@ class C14(Check):
                               'area/secret_beside.txt', 'root1/' + rng.choice(rels)])
             pre = rng.choice(['', 'sub/', 'sub/deep/', 'nonexistent/', rng.choice(rels) + '/'])
             rel = pre + up + '/' + tgt
+        elif kind == 'compat':
+            # characters that only LOOK like (or normalise to) dots and slashes: they are ordinary name characters
+            dd = rng.choice(['\u2025', '\uff0e\uff0e', '\u2024\u2024', '.\uff0e', '\ufe52\ufe52'])
+            sl = rng.choice(['/', '/', '\uff0f', '\u2215'])
+            tgt = rng.choice(['secret_beside.txt', 'secret_above.txt', 'root1_evil/leak.txt'])
+            rel = rng.choice(['', 'sub/']) + dd + sl + (dd + sl if rng.random() < 0.5 else '') + tgt
+            if rng.random() < 0.3:
+                rel = '\uff0f{area}\uff0fsecret_beside.txt'
         elif kind == 'abs':
             rel = rng.choice(['/{base}/secret_above.txt', '/{area}/secret_beside.txt', '//{area}/secret_beside.txt',
                               '/{area}/root1_evil/leak.txt', '/etc/passwd', '/{area}/root1/' + rng.choice(rels),
